@@ -152,11 +152,17 @@ def mps_case(ctx, idx, rng):
         psi = ptn.MPS(psi.qd, psi.qD, fill=complex(rng.choice([0.5, 1.0]), rng.choice([0.0, -1.0])) if rng.random() < 0.5 else float(rng.choice([0.5, -2.0])))
     struct = STRUCT[(idx // 3) % len(STRUCT)]
     add_structure(rng, psi, False, struct)
+    if idx % 8 == 3 and layout not in ('pairs', 'huge'):
+        # quantum numbers stored in a narrower integer type (values are small: no overflow in any legitimate sum)
+        dt = (np.int32, np.int16, np.int8)[(idx // 8) % 3]
+        psi.qd = psi.qd.astype(dt)
+        psi.qD = [q.astype(dt) for q in psi.qD]
+        layout = layout + '-' + np.dtype(dt).name
     old = snapshot(psi, False)
     zero = np.linalg.norm(old['dense']) == 0
     ctx.case(('mps', f'L{min(L, 3)}', f'd{min(d, 3)}', prof, layout, kind if prof != 'deficient' else 'complex', mode, 'zero-state' if zero else 'nonzero', struct),
              nontrivial=not zero, sample={'qd': psi.qd, 'qD': psi.qD, 'mode': mode, 'A0': psi.A[0]}, info={'qd': old['qd'], 'qD': old['qD'], 'A': old['A'], 'mode': mode})
-    nrm = psi.orthonormalize(mode) if not (mode == 'left' and idx % 4 == 0) else psi.orthonormalize()      # default mode is 'left'
+    nrm = psi.orthonormalize(mode if idx % 5 else np.str_(mode)) if not (mode == 'left' and idx % 4 == 0) else psi.orthonormalize()      # default mode is 'left'
     orth_post(ctx, old, psi, nrm, mode, False)
     if not zero and not ctx._case_failed:
         # second call on the already canonical object: factor 1, nothing changes in meaning
